@@ -49,7 +49,7 @@ def run_case(case):
     from adb_shell.auth.sign_pythonrsa import PythonRSASigner
 
     rng = gen.rng_for("C17", case["seed"])
-    tmp = tempfile.mkdtemp(prefix="verif-c17-", dir="/tmp")
+    tmp = tempfile.mkdtemp(prefix="verif-c17-", dir=os.environ.get("VERIF_TMP", "/tmp"))
     viol = []
     stats = {"signatures_verified": 0, "blobs_checked": 0, "signer_agreements": 0, "tokens": 0}
     try:
